@@ -6,9 +6,9 @@ ASSUMPTIONS = ['operations that take the session mutex are atomic w.r.t. consume
                'two threads racing on the same log statement: the model keeps one id per site; the real code may register the source twice (two distinct ids, both written) - observed, allowed by the property']
 RULE = ('histories as in C11 with log statements (8 sites) registering sources lazily, events that reuse published ids added inside consume between the source write and the poll, several clock syncs; '
         '(a) model vs real headers; (b) implementation alone: in every output every event is preceded by the source entry with its id and by a clock sync, ids returned by addEventSource are the next distinct ones, '
-        'no source is written twice to one output. non-trivial as in C11')
+        'no source is written twice to one output. plus implementation-only histories the model has no operations for (a log statement attempted while consume holds the mutex, a failing sink with retry, registrations during a write of reconsumeMetadata, consume while another thread holds the mutex), judged by the same oracle. non-trivial as in C11')
 CHECKS = ('meta',)
-def run(ctx): return run_session_property(ctx, CHECKS, dict(vary=lambda i, rng: dict(use_log=(i % 2 == 0), rotate=(i % 3 == 0))), 'metadata does not precede the data referencing it on the implementation')
+def run(ctx): return run_session_property(ctx, CHECKS, dict(vary=lambda i, rng: dict(use_log=(i % 2 == 0), rotate=(i % 3 == 0))), 'metadata does not precede the data referencing it on the implementation', inside=True)
 def search(ctx):
     c2 = Ctx(ctx.pid, 'quick', ctx.seed + 1, random.Random(ctx.seed + 99), ctx.drivers, True); c2.n = lambda q, t: 6000
     found = [v for v in run(c2)['violations'] if v[1]]
